@@ -32,6 +32,11 @@ CROSS = {
     # wave 6
     "C04-A6": ["C11"], "C04-B6": ["C10"], "C15-B6": ["C02"], "C11-A6": ["C10"], "C11-B6": ["C10"], "C13-A6": ["C01"], "C07-A6": ["C11"],
     "C07-B6": ["C01"], "C03-B6": ["C15"], "C14-B6": ["C02"], "C16-A6": ["C01"], "C01-A6": ["C13"], "C02-A6": ["C03"], "C08-B6": ["C16"],
+    # wave 7
+    "C01-B7": ["C13"], "C02-B7": ["C03"], "C03-A7": ["C02"], "C04-A7": ["C10"], "C04-B7": ["C10"], "C07-A7": ["C01"], "C07-B7": ["C13"],
+    "C08-A7": ["C01"], "C08-B7": ["C01"], "C10-A7": ["C05"], "C10-B7": ["C11"], "C11-B7": ["C07"], "C13-A7": ["C01"], "C13-B7": ["C16"],
+    "C14-A7": ["C16", "C01"], "C14-B7": ["C12"], "C15-A7": ["C02"], "C16-A7": ["C08", "C01"], "C16-B7": ["C13"], "C12-A7": ["C11"], "C12-B7": ["C10"],
+    "C10-S1": [],
     "C09-B6": ["C10"], "C09-A6": ["C10"], "C10-A6": ["C12"], "C12-B6": ["C11"], "C14-A6": ["C05"], "C08-A6": ["C16"], "C16-B6": ["C01"],
 }
 
